@@ -216,6 +216,9 @@ class Gen:
             elif self.profile == "unmodelled" and r.random() < 0.5:
                 e = self.expr(d - 1)
                 self.hist["chain-middle-lifted"] += 1
+            elif self.profile in ("frag", "loopelse"):
+                e = self.pure_noread(d - 1, set())      # proved fragment: call-free middle operands
+                self.hist["chain-middle-pure"] += 1
             else:
                 e = self.simple(d - 1)
                 if e[0] == "Call":
